@@ -231,8 +231,8 @@ func check(t ev.TB, c Case, labels ...string) {
 	ev.Case(nt, c, append(labels, fmt.Sprintf("nodes:%d", c.Nodes))...)
 	ev.Count("publishes_with_fault_subsets", int64(len(c.Pubs)))
 	if f != nil && f.inconclusive {
-		ev.Count("inconclusive_cases", 1)
-		t.Fatalf("VERIF-INCONCLUSIVE %s", f.msg)
+		ev.Inconclusive(t, f.msg)
+		return
 	}
 	if f != nil {
 		ev.Fail(t, "cross-node", c, "%s", f.msg)
